@@ -203,8 +203,8 @@ func runCheck(id, tier, repo, verif string, writeEvidence bool) int {
 			missing = append(missing, name)
 			continue
 		}
-		if con.flag("trusted") && !ps.allFns {
-			continue
+		if con.flag("trusted") {
+			continue // assumed contract: the body is not analysed (listed in evidence)
 		}
 		wg.Add(1)
 		go func(name string, fn *ssa.Function, con *Contract) {
